@@ -99,10 +99,12 @@ fn random_case(rng: &mut Rng, tmax: usize) -> String {
     let s = *rng.pick(&[1usize, 2, 2, 2, 2, 3, 3, 3, 4, 4]);
     let m = *rng.pick(&[1usize, 2, 2, 2, 3, 3, 4]);
     let d = *rng.pick(&[1usize, 2, 2, 3, 4, 4, 5, 6, 8, 10, 10, 12]);
-    let t = match rng.below(10) {
-        0 | 1 => 1,
-        2 | 3 => 2,
-        4 => 3,
+    let t = match rng.below(40) {
+        0..=7 => 1,
+        8..=15 => 2,
+        16..=19 => 3,
+        // a few long sequences (probabilities down to 1e-60 and below: log-space stability)
+        20 => 9 + rng.below(22),
         _ => 1 + rng.below(tmax),
     };
     let init = row(rng, s, d);
